@@ -212,11 +212,22 @@ def run(rng, tier, deep):
         mxy = [float(rng.normal() * 5), float(rng.normal() * 5)]
         ext = 8
         dom = [-ext * p["res"], ext * p["res"], -ext * p["res"], ext * p["res"]]
-        gx, gy, f = real_fp(p, dom, mxy, wd)
+        try:
+            gx, gy, f = real_fp(p, dom, mxy, wd)
+        except Exception as e:  # noqa: BLE001
+            st["disagreements"].append(dict(what="km: the implementation raised %s: %s" % (type(e).__name__, str(e)[:120]), op=str(p)))
+            continue
         idx = rng.choice(gx.size, size=12, replace=False)
         pts = np.column_stack([gx.ravel()[idx], gy.ravel()[idx]]).ravel()
         A = np.asarray([p["zm"]])
         Lr = np.asarray([p["L"]])
+        try:
+            with np.errstate(all="ignore"):
+                _probe = 0.4 * p["zm"] * p["ustar"] / (float(km._phiC(A, Lr)[0]) * p["zm"] ** float(km._nParam(A, Lr)[0]))
+        except Exception as e:  # noqa: BLE001
+            st["disagreements"].append(dict(what="km: the implementation's helper values cannot be combined (%s: %s) for L = %r"
+                                            % (type(e).__name__, str(e)[:80], p["L"]), op=str(p)))
+            continue
         m = float(km._mParam(A, np.asarray([p["ws"]]), np.asarray([p["ustar"]]), Lr)[0])
         n = float(km._nParam(A, Lr)[0])
         kappa = 0.4 * p["zm"] * p["ustar"] / (float(km._phiC(A, Lr)[0]) * p["zm"] ** n)
